@@ -14,7 +14,7 @@ import (
 // sequences, and ReplaceFrom is delete-then-insert whose intermediate state
 // shows when the second step fails.
 
-var c18Stores = []string{"nacc", "nstruct", "rstruct", "nstruct", "rstruct", "rmap", "nmap", "ctl"}
+var c18Stores = []string{"nstruct0", "nacc", "nstruct", "rstruct", "nstruct", "rstruct", "rmap", "nmap", "ctl"}
 
 func c18Gen(r *kit.Rng) *histScenario {
 	sk := store.Variant(r, c18Stores[r.Intn(len(c18Stores))])
